@@ -277,6 +277,12 @@ func genC05(out *Out, r *Rng, tier string, n int, shard int) {
 		if err != nil {
 			panic(err)
 		}
+		if r.Bool() {
+			// a credential that already carries proofs: building the claim must leave them alone (the purity predicate compares
+			// the whole credential before and after)
+			cp := verifiable.CommonProof{"type": "Ed25519Signature2020", "proofValue": "z" + fmt.Sprint(r.Intn(1000000))}
+			vc.Proof = verifiable.CredentialProofs{&cp}
+		}
 		in := c.modelIn(root)
 		tags := []string{fmt.Sprintf("serialized:%v", c.SerAttr != ""), "subjtype:" + c.SubjectTypeAs, fmt.Sprintf("subject:%v", c.SubjectDID != ""), fmt.Sprintf("exp:%v", c.Expiration != nil)}
 		// option combinations on fresh objects
